@@ -172,6 +172,18 @@ func (g *Generator) generateMockFieldAssignments(
 ) {
 	messageName := string(message.Desc.Name())
 
+	// Recursive message types (directly or through other messages) would make this
+	// traversal endless: leave a message that is already being populated empty.
+	fullName := string(message.Desc.FullName())
+	if g.mockVisiting[fullName] {
+		return
+	}
+	if g.mockVisiting == nil {
+		g.mockVisiting = make(map[string]bool)
+	}
+	g.mockVisiting[fullName] = true
+	defer delete(g.mockVisiting, fullName)
+
 	for _, field := range message.Fields {
 		fieldName := field.GoName
 		fieldPath := messageName + "." + string(field.Desc.Name())
